@@ -1,7 +1,201 @@
 import GoawkModel.Basic
-/-! Line-protocol handler for property C11: one request line (already split into words, without the leading `c11`) → one answer line. -/
-namespace GoawkModel.Drv.C11
+import GoawkModel.C11
+/-!
+Line-protocol handler for property C11.
 
-def handle (_args : List String) : String := "unimplemented"
+`run <fuel> A <n> <hex>*n  S <n> <hex>*n  F <k> (<name> <n> <hex>*n)*k  V <n> <name>*n  B <ops> ;  R <k> (<pat> <body>)*k  E (0 | 1 <ops> ;)`
+
+* `A` ARGV[1..n] (ARGV[0] is implicit, ARGC = n+1), `S` the records of stdin, `F` the files, `V` the program's global scalar names
+* ops: `e <tag>` | `n` | `nf` | `x <n>` | `x -` | `g` | `gv <v>` | `gf <file>` | `gvf <v> <file>` | `c <ops> ;` | `l <n> <ops> ;` |
+  `i <cond> <ops> ;` | `sa <i> <hex>` | `sc <n>`
+* pat: `a` | `p <cond>` | `r <cond> <cond>`;  body: `0` (no action) | `1 <ops> ;`
+* cond: `t` | `f` | `h <byte>` | `nr <n>` | `fnr <n>` | `nrge <n>` | `not <cond>` | `veq <v> <hex>` | `and <cond> <cond>`
+
+answer: `ok|err <status> <event>*` with events `E:tag:nr:fnr:filename:line:nf:v0,v1,v2`, `G:form:ret`, `P:line`, `X:kind[:value]`
+-/
+namespace GoawkModel.Drv.C11
+open GoawkModel GoawkModel.C11
+
+abbrev Toks := List String
+
+def pNat (t : Toks) : Option (Nat × Toks) :=
+  match t with
+  | x :: r => x.toNat?.map (·, r)
+  | [] => none
+
+def pHex (t : Toks) : Option (Bytes × Toks) :=
+  match t with
+  | x :: r => (fromHex x).map (·, r)
+  | [] => none
+
+def pHexN : Nat → Toks → Option (List Bytes × Toks)
+  | 0, t => some ([], t)
+  | n + 1, t => do
+    let (x, t) ← pHex t
+    let (xs, t) ← pHexN n t
+    pure (x :: xs, t)
+
+def pList (t : Toks) : Option (List Bytes × Toks) := do
+  let (n, t) ← pNat t
+  pHexN n t
+
+def pFiles : Nat → Toks → Option (List (Bytes × List Rec) × Toks)
+  | 0, t => some ([], t)
+  | k + 1, t => do
+    let (name, t) ← pHex t
+    let (recs, t) ← pList t
+    let (rest, t) ← pFiles k t
+    pure ((name, recs) :: rest, t)
+
+def pCond : Nat → Toks → Option ((View → Bool) × Toks)
+  | 0, _ => none
+  | fuel + 1, t =>
+    match t with
+    | "t" :: r => some (fun _ => true, r)
+    | "f" :: r => some (fun _ => false, r)
+    | "h" :: r => do
+      let (c, r) ← pNat r
+      pure (fun v => v.line.contains (UInt8.ofNat c), r)
+    | "nr" :: r => do
+      let (n, r) ← pNat r
+      pure (fun v => v.nr == n, r)
+    | "fnr" :: r => do
+      let (n, r) ← pNat r
+      pure (fun v => v.fnr == n, r)
+    | "nrge" :: r => do
+      let (n, r) ← pNat r
+      pure (fun v => decide (v.nr ≥ n), r)
+    | "not" :: r => do
+      let (c, r) ← pCond fuel r
+      pure (fun v => !c v, r)
+    | "and" :: r => do
+      let (c1, r) ← pCond fuel r
+      let (c2, r) ← pCond fuel r
+      pure (fun v => c1 v && c2 v, r)
+    | "veq" :: r => do
+      let (i, r) ← pNat r
+      let (x, r) ← pHex r
+      pure (fun v => v.vars.getD i [] == x, r)
+    | _ => none
+
+def pOps : Nat → Toks → Option (List Op × Toks)
+  | 0, _ => none
+  | fuel + 1, t =>
+    let one (o : Op) (r : Toks) : Option (List Op × Toks) := do
+      let (os, r) ← pOps fuel r
+      pure (o :: os, r)
+    match t with
+    | ";" :: r => some ([], r)
+    | "e" :: r => do
+      let (n, r) ← pNat r
+      one (.emit n) r
+    | "n" :: r => one .next r
+    | "nf" :: r => one .nextfile r
+    | "x" :: "-" :: r => one (.exit none) r
+    | "x" :: r => do
+      let (n, r) ← pNat r
+      one (.exit (some n)) r
+    | "g" :: r => one .getline r
+    | "gv" :: r => do
+      let (v, r) ← pNat r
+      one (.getlineVar v) r
+    | "gf" :: r => do
+      let (f, r) ← pHex r
+      one (.getlineFile f) r
+    | "gvf" :: r => do
+      let (v, r) ← pNat r
+      let (f, r) ← pHex r
+      one (.getlineVarFile v f) r
+    | "c" :: r => do
+      let (b, r) ← pOps fuel r
+      one (.call b) r
+    | "l" :: r => do
+      let (n, r) ← pNat r
+      let (b, r) ← pOps fuel r
+      one (.loop n b) r
+    | "i" :: r => do
+      let (c, r) ← pCond fuel r
+      let (b, r) ← pOps fuel r
+      one (.cond c b) r
+    | "sa" :: r => do
+      let (i, r) ← pNat r
+      let (v, r) ← pHex r
+      one (.setArgv i v) r
+    | "sc" :: r => do
+      let (n, r) ← pNat r
+      one (.setArgc n) r
+    | _ => none
+
+def pRules (fuel : Nat) : Nat → Toks → Option (List Rule × Toks)
+  | 0, t => some ([], t)
+  | k + 1, t => do
+    let (pat, t) ← (match t with
+      | "a" :: r => some (Pat.always, r)
+      | "p" :: r => do
+        let (c, r) ← pCond fuel r
+        pure (Pat.pred c, r)
+      | "r" :: r => do
+        let (b, r) ← pCond fuel r
+        let (e, r) ← pCond fuel r
+        pure (Pat.range b e, r)
+      | _ => none)
+    let (body, t) ← (match t with
+      | "0" :: r => some (none, r)
+      | "1" :: r => do
+        let (os, r) ← pOps fuel r
+        pure (some os, r)
+      | _ => none)
+    let (rest, t) ← pRules fuel k t
+    pure (⟨pat, body⟩ :: rest, t)
+
+def expect (s : String) (t : Toks) : Option Toks :=
+  match t with
+  | x :: r => if x = s then some r else none
+  | [] => none
+
+def pad3 (l : List Bytes) : List Bytes := (l ++ [[], [], []]).take 3
+
+def showEvent : Event → String
+  | .emit tag nr fnr fn line nf vars _ =>
+    s!"E:{tag}:{nr}:{fnr}:{toHex fn}:{toHex line}:{nf}:" ++ String.intercalate "," ((pad3 vars).map toHex)
+  | .gl form ret => s!"G:{form}:{ret}"
+  | .print line => s!"P:{toHex line}"
+  | .ctl k none => s!"X:{k}"
+  | .ctl k (some n) => s!"X:{k}:{n}"
+
+def handleRun (t : Toks) : Option String := do
+  let fuel0 := t.length + 1
+  let (fuel, t) ← pNat t
+  let t ← expect "A" t
+  let (args, t) ← pList t
+  let t ← expect "S" t
+  let (stdin, t) ← pList t
+  let t ← expect "F" t
+  let (k, t) ← pNat t
+  let (files, t) ← pFiles k t
+  let t ← expect "V" t
+  let (names, t) ← pList t
+  let t ← expect "B" t
+  let (begin, t) ← pOps fuel0 t
+  let t ← expect "R" t
+  let (k, t) ← pNat t
+  let (rules, t) ← pRules fuel0 k t
+  let t ← expect "E" t
+  let (end_, t) ← (match t with
+    | "0" :: r => some (none, r)
+    | "1" :: r => do
+      let (os, r) ← pOps fuel0 r
+      pure (some os, r)
+    | _ => none)
+  if t ≠ [] then none else
+  let s0 : St := { fs := files, stdin := stdin, argv := [] :: args, argc := args.length + 1, varNames := names }
+  let (ok, s) := run fuel ⟨begin, rules, end_⟩ s0
+  let evs := s.out.reverse.map showEvent
+  pure (String.intercalate " " ((if ok then "ok" else "err") :: toString s.status :: evs))
+
+def handle (args : List String) : String :=
+  match args with
+  | "run" :: t => (handleRun t).getD "bad-request"
+  | _ => "bad-request"
 
 end GoawkModel.Drv.C11
